@@ -58,11 +58,23 @@ impl<R: Round, const B: Word> FBig<R, B> {
     }
 }
 
+impl<const B: Word> Repr<B> {
+    /// Flip the sign in place. The sign of an infinity (zero significand) is stored in the exponent.
+    #[inline]
+    fn negate(&mut self) {
+        if self.significand.is_zero() {
+            self.exponent = -self.exponent;
+        } else {
+            self.significand = -core::mem::take(&mut self.significand);
+        }
+    }
+}
+
 impl<const B: Word> Neg for Repr<B> {
     type Output = Self;
     #[inline]
     fn neg(mut self) -> Self::Output {
-        self.significand = -self.significand;
+        self.negate();
         self
     }
 }
@@ -71,7 +83,7 @@ impl<R: Round, const B: Word> Neg for FBig<R, B> {
     type Output = Self;
     #[inline]
     fn neg(mut self) -> Self::Output {
-        self.repr.significand = -self.repr.significand;
+        self.repr.negate();
         self
     }
 }
@@ -87,7 +99,9 @@ impl<R: Round, const B: Word> Neg for &FBig<R, B> {
 impl<R: Round, const B: Word> Abs for FBig<R, B> {
     type Output = Self;
     fn abs(mut self) -> Self::Output {
-        self.repr.significand = self.repr.significand.abs();
+        if self.repr.sign() == Sign::Negative {
+            self.repr.negate();
+        }
         self
     }
 }
@@ -96,7 +110,9 @@ impl<R: Round, const B: Word> Mul<FBig<R, B>> for Sign {
     type Output = FBig<R, B>;
     #[inline]
     fn mul(self, mut rhs: FBig<R, B>) -> Self::Output {
-        rhs.repr.significand *= self;
+        if self == Sign::Negative {
+            rhs.repr.negate();
+        }
         rhs
     }
 }
@@ -105,7 +121,9 @@ impl<R: Round, const B: Word> Mul<Sign> for FBig<R, B> {
     type Output = FBig<R, B>;
     #[inline]
     fn mul(mut self, rhs: Sign) -> Self::Output {
-        self.repr.significand *= rhs;
+        if rhs == Sign::Negative {
+            self.repr.negate();
+        }
         self
     }
 }
@@ -113,7 +131,9 @@ impl<R: Round, const B: Word> Mul<Sign> for FBig<R, B> {
 impl<R: Round, const B: Word> MulAssign<Sign> for FBig<R, B> {
     #[inline]
     fn mul_assign(&mut self, rhs: Sign) {
-        self.repr.significand *= rhs;
+        if rhs == Sign::Negative {
+            self.repr.negate();
+        }
     }
 }
 
